@@ -139,8 +139,10 @@ def mode_of(be):
     return "pol" if be == "pol" else "sql"
 
 
-def static_type_problem(tbl, df, be):
-    """I9: static dtype must be a supertype of (for concrete types: equal to) the exported dtype."""
+def static_type_problem(tbl, df, be, bool_as_int_ok=None):
+    """I9: static dtype must be a supertype of (for concrete types: equal to) the exported dtype.
+    bool_as_int_ok: names for which a Bool column may come back as 0/1 integers on SQLite (None: any column; the
+    pipeline checks pass () since FIX-59 typed the last untyped boolean expression)."""
     import polars as pl
 
     from pydiverse.common import Dtype
@@ -173,7 +175,7 @@ def static_type_problem(tbl, df, be):
                 # D17: SQLite is dynamically typed: an integral value of an untyped expression (CASE with an integer
                 # branch, ROUND, ...) comes back as INTEGER although the expression is a float expression
                 ok = True
-            if not ok and _family(st) == "Bool" and _family(et) == "int":
+            if not ok and _family(st) == "Bool" and _family(et) == "int" and (bool_as_int_ok is None or c.name in bool_as_int_ok):
                 # D17: SQLite has no boolean storage class; an untyped boolean expression comes back as 0/1
                 vals = set(df.get_column(c.name).drop_nulls().to_list())
                 ok = vals <= {0, 1}
@@ -232,6 +234,7 @@ def run_program(prog, backends=("pol", "sqlite"), opts=None, be_cache=None) -> O
     reexport_every = opts.get("reexport_every", 8)
     share = opts.get("share", True)
     n_exports = 0
+    f32_inputs = any(dt == "Float32" for ts in prog["tables"] for _cn, dt in ts["schema"])
     for be in backends:
         if be in prog.get("meta", {}).get("skip_backends", ()):
             continue
@@ -386,12 +389,12 @@ def run_program(prog, backends=("pol", "sqlite"), opts=None, be_cache=None) -> O
                     out.add("meta:" + be, be, h, p, verb="export")
             if want_types:
                 try:
-                    for p in static_type_problem(tbl, df, be):
+                    for p in static_type_problem(tbl, df, be, bool_as_int_ok=()):
                         out.add("type:" + be, be, h, p, verb="export")
                 except Exception as e:
                     out.add("harness", be, h, f"type check crashed {type(e).__name__}: {e}")
             if h in ref_ok:
-                prob, judged_as = compare.compare_with_ref(df, rf.env[h], mode)
+                prob, judged_as = compare.compare_with_ref(df, rf.env[h], mode, single_precision_inputs=f32_inputs)
                 out.probes_judged += 1
                 out.judged_as[judged_as] = out.judged_as.get(judged_as, 0) + 1
                 if prob:
@@ -402,8 +405,8 @@ def run_program(prog, backends=("pol", "sqlite"), opts=None, be_cache=None) -> O
                     if h in ref_ok:
                         # cells REF calls undefined (e.g. cum_sum over tied sort keys, where the SQL
                         # backends break ties randomly on purpose) may differ between two exports
-                        p, _ = compare.compare_with_ref(df2, rf.env[h], mode)
-                        p0, _ = compare.compare_with_ref(df, rf.env[h], mode)
+                        p, _ = compare.compare_with_ref(df2, rf.env[h], mode, single_precision_inputs=f32_inputs)
+                        p0, _ = compare.compare_with_ref(df, rf.env[h], mode, single_precision_inputs=f32_inputs)
                         p = p if (p and not p0) else None
                     else:
                         p = None
